@@ -212,7 +212,7 @@ fn gen_sub(rng: &mut Rng, r: usize, c: usize, oob: bool, for_vector_src: bool) -
   }
 }
 
-pub const PRELUDE: &str = "inc(x<f64>) = z<f64> :=\n    z := x + 1.\naddtwo(x<f64>, y<f64>) = z<f64> :=\n    p := x + 0\n    z := p + y.\nbad(x<f64>) = z<f64> :=\n    y := x + 1\n    q := y + nosuchvar\n    z := q + 1.\nshadow(x<f64>) = z<f64> :=\n    y := x * 2\n    p := y + 1\n    z := p - 3.\nmut(x<f64>) = z<f64> :=\n    ~m := x\n    m = m + 1\n    z := m.\nmutm(x<[f64]>) = z<[f64]> :=\n    ~m := x\n    m[1] = 99\n    z := m.\nidf(a<f64>) => <f64>\n  | n => n.";
+pub const PRELUDE: &str = "inc(x<f64>) = z<f64> :=\n    z := x + 1.\naddtwo(x<f64>, y<f64>) = z<f64> :=\n    p := x + 0\n    z := p + y.\nbad(x<f64>) = z<f64> :=\n    y := x + 1\n    q := y + nosuchvar\n    z := q + 1.\nshadow(x<f64>) = z<f64> :=\n    y := x * 2\n    p := y + 1\n    z := p - 3.\nmut(x<f64>) = z<f64> :=\n    ~m := x\n    m = m + 1\n    z := m.\nmutm(x<[f64]>) = z<[f64]> :=\n    ~m := x\n    m[1] = 99\n    z := m.\nidf(a<f64>) => <f64>\n  | n => n.\npick(x<f64>) = z<f64> :=\n    y := [1 2 3]\n    p := x + 1\n    z := y[7].\novf(x<f64>) = z<u8> :=\n    y := 250u8\n    p := x + 1\n    z := y + 10u8.";
 
 thread_local! { static FUNCTIONS_ON: std::cell::Cell<bool> = const { std::cell::Cell::new(false) }; }
 pub fn set_functions(on: bool) { FUNCTIONS_ON.with(|f| f.set(on)); }
@@ -329,9 +329,13 @@ fn other_kind(rng: &mut Rng, kind: &str) -> String {
 
 fn failing_source(rng: &mut Rng, k: &Knobs, m: &Model) -> Expr {
   if k.functions && rng.chance(1, 3) {
-    return match rng.below(3) {
+    return match rng.below(5) {
       // fails inside the body, after the input and a local were bound
       0 => Expr::Call("bad".into(), vec![Expr::Lit(gen_scalar(rng, "f64"))]),
+      // the body *panics* (out-of-range read / integer overflow) after binding its input and two locals:
+      // the scope is left by unwinding, not by an error return
+      3 => Expr::Call("pick".into(), vec![if rng.chance(1, 2) { Expr::Lit(gen_scalar(rng, "f64")) } else { let h = names_where(m, |b| matches!(b.v, SV::F64(_))); if h.is_empty() { Expr::Lit(gen_scalar(rng, "f64")) } else { Expr::Var((*rng.pick(&h)).clone()) } }]),
+      4 => Expr::Call("ovf".into(), vec![Expr::Lit(gen_scalar(rng, "f64"))]),
       1 => Expr::Call("inc".into(), vec![Expr::Lit(SV::Str("a".into()))]),
       _ => Expr::Call("addtwo".into(), vec![Expr::Lit(gen_scalar(rng, "f64"))]),
     };
